@@ -322,6 +322,10 @@ func (m *Minter) Mint(spec ReqSpec, s time.Time, skew time.Duration, r *core.Rng
 			tkt.SName = rk.ParseName("HTTP/other.sim.test")
 		}
 	}
+	if hasDefect(ds, "sname-label-krbtgt") != nil {
+		// the clear-text name claims the ticket is one for the ticket-granting service
+		tkt.SName = rk.PrincipalName{Type: 2, Names: []string{"krbtgt", "SIM.TEST"}}
+	}
 	if hasDefect(ds, "sname-empty") != nil {
 		tkt.SName = rk.PrincipalName{Type: 1, Names: nil}
 	}
@@ -579,6 +583,12 @@ func Accept(tr *Truth, st ServiceSettings, kt *KeytabModel, now time.Time, repla
 		v.PassedToReplayCheck = true
 		if replay[v.ReplayKey] {
 			reject("replay")
+		} else if SameClientTime(replay, v.ReplayKey) {
+			// the same client and client time were accepted for another service name: not a replay
+			// by the triple of the statement, but nothing that names the service in a request is
+			// protected, and "authenticators differing in client name or timestamp are never mistaken
+			// for replays of each other" leaves a cache free not to partition by service
+			either("same-client-and-time-accepted-under-another-service-name")
 		}
 	}
 	// 8. PAC
@@ -586,6 +596,21 @@ func Accept(tr *Truth, st ServiceSettings, kt *KeytabModel, now time.Time, repla
 		reject("pac-invalid")
 	}
 	return v
+}
+
+// SameClientTime reports whether m holds a replay key with the client and client time of key
+// (whatever its service name).
+func SameClientTime(m map[string]bool, key string) bool {
+	i := strings.LastIndex(key, "|")
+	if i < 0 {
+		return false
+	}
+	for k, v := range m {
+		if v && strings.HasPrefix(k, key[:i+1]) {
+			return true
+		}
+	}
+	return false
 }
 
 // StdPACFor returns a PACFor hook that re-signs the captured sample PAC under the ticket's
